@@ -25,15 +25,15 @@ echo "SEED $P-$I build='$build' suite_ok_pkgs=$tests suite_fail_lines=$fails dem
 cp $patch $OUT/patch.diff; cp $demo $OUT/demo_test.go.txt; cp $WT/seed_${I}_notes.txt $OUT/notes.txt 2>/dev/null
 results=""
 for C in $CHECKS; do
-  git -C /repo apply $patch || { echo "cannot apply to /repo"; exit 1; }
-  cd /verif && timeout 3000 ./bin/symgo check -prop $C -no-evidence > /tmp/seed_check_$P-${I}_$C.log 2>&1; code=$?
-  git -C /repo checkout -- .
+  # the checks run against the scratch worktree with the change applied (symgo -repo), so /repo itself stays untouched
+  git -C $WT checkout -q -- . && git -C $WT apply $patch || { echo "cannot apply"; exit 1; }
+  cd /verif && timeout 3000 ./bin/symgo check -repo $WT -prop $C -no-evidence > /tmp/seed_check_$P-${I}_$C.log 2>&1; code=$?
+  git -C $WT checkout -q -- .
   nviol=$(grep -c "^VIOLATION" /tmp/seed_check_$P-${I}_$C.log)
   first=$(grep -m1 "^VIOLATION\|^INCONCLUSIVE\|^ENCODING\|^VACUOUS" /tmp/seed_check_$P-${I}_$C.log | cut -c1-200)
   echo "  check $C exit=$code violations=$nviol first='$first'"
   results="$results{\"check\":\"$C\",\"exit\":$code,\"violation_lines\":$nviol},"
 done
-git -C /repo status --short | head -3
 python3 - <<PY
 import json
 meta={"property":"$P","seed":"$P-$I","source":"independent sub-agent given only the property text and a scratch worktree",
